@@ -637,7 +637,7 @@ func (w *w4) judgeMetadata(id int, q *w4req, resp *kmsg.MetadataResponse, invoke
 	// topology: equal to what some snapshot of the cluster metadata held during the request implies
 	var why string
 	for i, sn := range w.snaps {
-		from := sn.step
+		from := sn.from
 		to := int(^uint(0) >> 1)
 		if i+1 < len(w.snaps) {
 			to = w.snaps[i+1].step
@@ -649,6 +649,11 @@ func (w *w4) judgeMetadata(id int, q *w4req, resp *kmsg.MetadataResponse, invoke
 			w.sim.Probe("c28.topology-judged")
 			return
 		}
+	}
+	if w.mutating > 0 {
+		// the harness is between changing the cluster metadata and recording the new state
+		w.sim.Probe("c28.unjudged-during-harness-mutation")
+		return
 	}
 	w.sim.Fail("C28", "topology-differs", "metadata v%d reply (request steps %d..%d) matches no snapshot of the cluster metadata held meanwhile: %s", v, invoke, ret, why)
 }
